@@ -195,6 +195,14 @@ func ruleR16b(h *H) {
 				return false
 			}
 			edges := ir.EdgesWhere(fn, func(c ir.Cmp) bool {
+				// no deltas at all: there is no first delta (the loop body cannot run)
+				if (c.Op == token.LEQ || c.Op == token.EQL) && isZero(c.R) {
+					if lc, ok := ir.Canon(c.L).(*ssa.Call); ok {
+						if b, isB := lc.Call.Value.(*ssa.Builtin); isB && b.Name() == "len" && isMsgField(lc.Call.Args[0], "PutRequest", "SequenceKeyDelta") {
+							return true
+						}
+					}
+				}
 				if c.Op != token.NEQ && c.Op != token.GTR {
 					return false
 				}
